@@ -36,6 +36,10 @@ func main() {
 		}
 		os.Exit(1)
 	}
+	if len(os.Args) > 3 && os.Args[3] == "schema" {
+		dumpSchemas(files)
+		return
+	}
 	for _, f := range files {
 		out, err := j5sx.Print(f)
 		fmt.Printf("==== %s (err=%v)\n%s\n", f.Path(), err, out)
